@@ -308,6 +308,77 @@ theorem c14_selfcal_isolation (A : CAlg S F) (R : ROps F) (evs evs' : List (Nat 
     specGain A R evs tg d c = specGain A R evs' tg d c := by
   simp only [specGain, validPts_congr A R evs evs' tg (tg.getD d 0) c h]
 
+/-! #### the same three facts for the complex value itself, under the two facts about the opaque
+    functions that make "magnitude and unwrapped phase" determine the number:
+    `np.mod(a, b)` differs from `a` by a whole multiple of `b`, and
+    `|z|·exp(i(arg z + 2πn)) = z` for every finite `z` and integer `n`. -/
+
+/-- `|z| · (cos + i sin)(arg z + 2πn) = z` -/
+def PolarLaw (A : CAlg S F) (R : ROps F) : Prop :=
+  ∀ (z : S) (n : ℤ), A.isFinite z = true → A.polar (A.abs z) (A.angle z + n * (R.pi + R.pi)) = z
+
+/-- `np.mod(a, b) = a - n·b` for some integer `n` -/
+def ModLaw (R : ROps F) : Prop := ∀ a b : F, ∃ n : ℤ, R.fmod a b = a - n * b
+
+theorem phasesOf_turns [LawfulBEq F] (A : CAlg S F) (R : ROps F) (hmod : ModLaw R) (pts : List (F × S))
+    (k : Nat) (hk : k < pts.length) :
+    ∃ n : ℤ, (phasesOf A R pts)[k]'(by simp [phasesOf, unwrap_length, hk])
+      = A.angle pts[k].2 + n * (R.pi + R.pi) := by
+  obtain ⟨n, hn⟩ := unwrap_shift R hmod (pts.map fun p => A.angle p.2) k (by simpa using hk)
+  exact ⟨n, by simpa [phasesOf] using hn⟩
+
+/-- **reproduces every valid solution at its own dump** -/
+theorem c14_gain_reproduces_solution [LawfulBEq F] (A : CAlg S F) (R : ROps F) (hmod : ModLaw R)
+    (hpolar : PolarLaw A R) (hmono : ∀ a b : Nat, a < b → R.ofNat a < R.ofNat b)
+    (evs : List (Nat × List S)) (hs : EventsSorted evs) (tg : List Nat) (c : Nat)
+    (e : Nat × List S) (he : e ∈ evs) (hfin : A.isFinite (e.2.getD c A.nan) = true) :
+    specGain A R evs tg e.1 c = e.2.getD c A.nan := by
+  obtain ⟨k, hk, hkv, hspec⟩ := c14_gain_exact_at_solution A R hmono evs hs tg c e he hfin
+  obtain ⟨n, hn⟩ := phasesOf_turns A R hmod _ k hk
+  rw [hspec, hn, hkv]
+  exact hpolar _ n hfin
+
+/-- **holds the first valid solution before it** -/
+theorem c14_gain_holds_first [LawfulBEq F] (A : CAlg S F) (R : ROps F) (hmod : ModLaw R)
+    (hpolar : PolarLaw A R) (evs : List (Nat × List S)) (tg : List Nat) (d c : Nat)
+    (p0 : F × S) (t : List (F × S)) (hv : validPts A R evs tg (tg.getD d 0) c = p0 :: t)
+    (hd : R.ofNat d < p0.1) : specGain A R evs tg d c = p0.2 := by
+  rw [c14_gain_hold_before A R evs tg d c p0 t hv hd]
+  obtain ⟨n, hn⟩ := phasesOf_turns A R hmod (p0 :: t) 0 (by simp)
+  rw [hn]
+  have hmem : (p0.1, p0.2) ∈ validPts A R evs tg (tg.getD d 0) c := by rw [hv]; exact List.mem_cons_self ..
+  obtain ⟨e, _, hfin, _, _, hz⟩ := (mem_validPts A R evs tg _ c _ _).mp hmem
+  simp only [List.getElem_cons_zero]
+  exact hpolar _ n (by rw [hz]; exact hfin)
+
+theorem validPts_finite (A : CAlg S F) (R : ROps F) (evs : List (Nat × List S)) (tg : List Nat) (τ c : Nat) :
+    ∀ p ∈ validPts A R evs tg τ c, A.isFinite p.2 = true := by
+  intro p hp
+  obtain ⟨e, _, hfin, _, _, hz⟩ := (mem_validPts A R evs tg τ c p.1 p.2).mp hp
+  rw [hz]; exact hfin
+
+theorem polar_last [LawfulBEq F] (A : CAlg S F) (R : ROps F) (hmod : ModLaw R) (hpolar : PolarLaw A R)
+    (pts : List (F × S)) (hne : pts ≠ []) (hfin : ∀ p ∈ pts, A.isFinite p.2 = true) (φ : F)
+    (hφ : (phasesOf A R pts).getLast? = some φ) :
+    A.polar (A.abs (pts.getLast hne).2) φ = (pts.getLast hne).2 := by
+  have hlen : 0 < pts.length := List.length_pos_iff.mpr hne
+  have hl : (phasesOf A R pts).length = pts.length := by simp [phasesOf, unwrap_length]
+  obtain ⟨n, hn⟩ := phasesOf_turns A R hmod pts (pts.length - 1) (by omega)
+  rw [List.getLast?_eq_getElem?, hl, List.getElem?_eq_getElem (by rw [hl]; omega)] at hφ
+  have hφ' := (Option.some.inj hφ).symm
+  rw [hφ', hn, List.getLast_eq_getElem]
+  exact hpolar _ n (hfin _ (List.getElem_mem _))
+
+/-- **holds the last valid solution after it** -/
+theorem c14_gain_holds_last [LawfulBEq F] (A : CAlg S F) (R : ROps F) (hmod : ModLaw R)
+    (hpolar : PolarLaw A R) (evs : List (Nat × List S)) (tg : List Nat) (d c : Nat)
+    (hne : validPts A R evs tg (tg.getD d 0) c ≠ [])
+    (hd : ∀ p ∈ validPts A R evs tg (tg.getD d 0) c, p.1 ≤ R.ofNat d) :
+    specGain A R evs tg d c = ((validPts A R evs tg (tg.getD d 0) c).getLast hne).2 := by
+  obtain ⟨φ, hspec, hφ⟩ := c14_gain_hold_after A R evs tg d c hne hd
+  rw [hspec]
+  exact polar_last A R hmod hpolar _ hne (validPts_finite A R evs tg _ c) φ hφ
+
 end gain
 
 /-! ### flux scale -/
